@@ -299,7 +299,7 @@ var c18cat = []c18ins{
 		ctx: func(c *build.Context, o []operand.Op) { c.PADDD(o[0], o[1]) }, pkg: func(o []operand.Op) { build.PADDD(o[0], o[1]) }},
 	{name: "MOVUPS", arity: 2, valid: []string{"m,xmm", "xmm,m", "xmm,xmm"},
 		ctx: func(c *build.Context, o []operand.Op) { c.MOVUPS(o[0], o[1]) }, pkg: func(o []operand.Op) { build.MOVUPS(o[0], o[1]) }},
-	{name: "VPADDD", arity: -1, valid: []string{"m,ymm,ymm", "ymm,ymm,ymm", "m,xmm,xmm", "xmm,xmm,xmm"},
+	{name: "VPADDD", arity: -1, valid: []string{"m,ymm,ymm", "ymm,ymm,ymm", "m,xmm,xmm", "xmm,xmm,xmm", "m,xmm,k,xmm", "m,ymm,k,ymm", "xmm,xmm,k,xmm", "ymm,ymm,k,ymm"},
 		ctx: func(c *build.Context, o []operand.Op) { c.VPADDD(o...) }, pkg: func(o []operand.Op) { build.VPADDD(o...) }},
 	{name: "KORQ", arity: 3, valid: []string{"k,k,k"},
 		ctx: func(c *build.Context, o []operand.Op) { c.KORQ(o[0], o[1], o[2]) }, pkg: func(o []operand.Op) { build.KORQ(o[0], o[1], o[2]) }},
@@ -2065,6 +2065,15 @@ func c18run(r *rng, limits map[int]int, stats map[string]int, script func(h *c18
 			resp = append(resp, fmt.Sprintf("%d:%d", len(g.Data), g.Size))
 		}
 		resp = append(resp, "c", itoa(len(file.Constraints)))
+		order := "-"
+		for _, sec := range file.Sections {
+			if _, ok := sec.(*ir.Function); ok {
+				order += "F"
+			} else {
+				order += "G"
+			}
+		}
+		resp = append(resp, "o", order)
 	}
 	var asm, stubs, diag bytes.Buffer
 	cfg := &build.Config{
